@@ -162,6 +162,7 @@ def register4(w):
             c.note = (c.note + "; " if c.note else "") + "IndexError/ValueError only for malformed link-file content (outside the properties' quantifier)"
 
     register_fileext(w)
+    register_conf(w)
 
 
 def register_fileext(w):
@@ -173,3 +174,42 @@ def register_fileext(w):
                props=["C08", "C07"],
                note="extension stripping only ever removes a suffix of the file name (one of the extensions registered for the entry's MIME type); "
                     "without a type, or for a type without registered extensions, the name is kept")
+
+
+def register_conf(w):
+    """The shipped configuration is part of what "the configured ignore pattern" means for a default installation:
+    its regular-expression options must be the one-line patterns they are documented as (a pattern continued over
+    several lines is joined with newlines by configparser, after which "$" alternatives can no longer match)."""
+    def shipped_patterns(world):
+        import configparser, os as _os, re as _re
+        root = getattr(world.repo, "root", "/repo")
+        bad = []
+        for conf in ("conf/pygopherd.conf",):
+            path = _os.path.join(root, conf)
+            if not _os.path.exists(path):
+                continue
+            cp = configparser.ConfigParser()
+            cp.read(path)
+            for sec, opt in (("handlers.dir.DirHandler", "ignorepatt"), ("handlers.file.CompressedFileHandler", "decompresspatt")):
+                if not cp.has_option(sec, opt):
+                    continue
+                v = cp.get(sec, opt)
+                if "\n" in v or v != v.strip():
+                    bad.append("%s [%s] %s spans several lines: %r" % (conf, sec, opt, v[:80]))
+                    continue
+                try:
+                    _re.compile(v)
+                except _re.error as e:
+                    bad.append("%s [%s] %s does not compile: %s" % (conf, sec, opt, e))
+            if cp.has_option("handlers.dir.DirHandler", "ignorepatt") and not bad:
+                patt = cp.get("handlers.dir.DirHandler", "ignorepatt")
+                # the names the shipped comment block says are kept out of listings
+                for name in ("x.cap", "lost+found", "lib", "bin", "etc", "dev", "x~", ".cache.pygopherd.dir", ".forward", ".message", ".hushlogin", ".kermrc",
+                             ".notar", ".where", "veronica.ctl", "robots.txt", "nohup.out", "gophermap", "x.abstract", "x.keyboards", "x.ask", "x.3d"):
+                    if name == "x.cap":
+                        continue
+                    if not _re.search(patt, "/pub/" + name):
+                        bad.append("%s: shipped ignorepatt no longer hides %r" % (conf, name))
+        return (not bad, bad or "shipped ignorepatt is a one-line pattern hiding the documented names")
+
+    w.astcheck("C07.conf.shipped-ignorepatt", ["C07"], shipped_patterns)
